@@ -246,7 +246,8 @@ func (x *Runner) execEnc(v reflect.Value, validation bool) string {
 	return "ok " + hexs(b)
 }
 
-func reversePerm(n int) []int {
+func reversePerm(items []string) []int {
+	n := len(items)
 	p := make([]int, n)
 	for i := range p {
 		p[i] = n - 1 - i
